@@ -201,7 +201,7 @@ func (c *Client) handlePacket(pktx pkts.Packet) error {
 			}
 		case 2:
 			var transaction *brokerPublishQOS2Transaction
-			transactionx, hasTransaction := c.transactions.Get(pkt.MessageID())
+			transactionx, hasTransaction := c.brokerTransactions.Get(pkt.MessageID())
 			if hasTransaction {
 				// We already have such transaction -> resent PUBLISH.
 				var ok bool
@@ -212,7 +212,7 @@ func (c *Client) handlePacket(pktx pkts.Packet) error {
 				}
 			} else {
 				transaction = newBrokerPublishQOS2Transaction(c, pkt.MessageID())
-				c.transactions.Store(pkt.MessageID(), transaction)
+				c.brokerTransactions.Store(pkt.MessageID(), transaction)
 			}
 			return transaction.Publish(pkt)
 		default:
@@ -227,7 +227,7 @@ func (c *Client) handlePacket(pktx pkts.Packet) error {
 
 	// Broker PUBLISH QoS 2 transaction.
 	case *pkts1.Pubrel:
-		transactionx, _ := c.transactions.Get(pkt.MessageID())
+		transactionx, _ := c.brokerTransactions.Get(pkt.MessageID())
 		transaction, ok := transactionx.(*brokerPublishQOS2Transaction)
 		if !ok {
 			c.log.Error("Unexpected transaction type %T for packet: %v", transactionx, pkt)
